@@ -352,6 +352,7 @@ Inductive werr :=
 | EAppend           (* fastavro: the file already has content and is not opened for appending *)
 | EMixed            (* Exception("Mixed record types") *)
 | ENoWriter         (* AttributeError: self.writer is None *)
+| ENoSchema         (* TypeError: fastavro.schemaless_writer handed self.parsed_schema = None *)
 | EValue            (* ValueError: the datum matches no branch of the union *)
 | EEncode           (* UnicodeEncodeError: surrogates not allowed *)
 | ECode.            (* a generated statement list uses something the interpreter does not have *)
@@ -626,7 +627,7 @@ Section Fastavro.
 
   Inductive wcond := CNoDesc | CDescDiffers | CNoWriter | CHasWriter | CHasFp | CHasFpNotStdout.
   Inductive wact :=
-  | SetDesc | MakeSchema | ParseSchema | MakeWriter | RaiseMixed | WriterWrite
+  | SetDesc | MakeSchema | ParseSchema | MakeWriter | RaiseMixed | DryRun | WriterWrite
   | MakeEmptyWriter | WriterFlush | CallFlush | FpClose | SetFpNone | SetWriterNone.
   Inductive wstmt := Do (a : wact) | When (c : wcond) (body : list wstmt).
   Record wcode := WCode { code_write : list wstmt; code_flush : list wstmt; code_close : list wstmt }.
@@ -680,6 +681,22 @@ Section Fastavro.
                     | None => WRaise ECode st
                     end
     | RaiseMixed => WRaise EMixed st
+    | DryRun =>
+        (* fastavro.schemaless_writer(io.BytesIO(), self.parsed_schema, r._packdict()): the record is encoded into a
+           scratch buffer; a record fastavro refuses raises here and nothing of the writer has changed *)
+        match arg with
+        | None => WRaise ECode st
+        | Some r =>
+            match w_schema st with
+            | None => WRaise ENoSchema st
+            | Some s => if schema_parses s
+                        then match enc_fields (map snd (s_fields s)) (r_vals r) false with
+                             | EncOk _ => WOk st
+                             | EncFail e _ => WRaise e st
+                             end
+                        else WRaise ENoSchema st
+            end
+        end
     | WriterWrite =>
         match arg with
         | None => WRaise ECode st
@@ -819,8 +836,9 @@ Definition times_ok (vs : list value) : bool := forallb time_ok vs.
 Definition mappable (cfg : config) (d : descriptor) : bool :=
   match descriptor_to_schema cfg d with Some _ => true | None => false end.
 
-(* a session on the file of descriptor d in which no write is accepted behind a value-refused write of the same
-   block (a flush in between starts a new block); [dirty]: such a refusal happened since the last flush *)
+(* (for the witness against a writer WITHOUT the dry run) a session on the file of descriptor d in which no write
+   is accepted behind a value-refused write of the same block (a flush in between starts a new block); [dirty]: such
+   a refusal happened since the last flush *)
 Fixpoint safe_session (cfg : config) (d : descriptor) (dirty : bool) (ops : list op) : bool :=
   match ops with
   | [] => true
